@@ -1223,6 +1223,9 @@ func selfTest(p *propCfg, b *build, seed uint64, tier string, total uint64) bool
 	if n > 300 {
 		n = 300
 	}
+	if p.race && n > 48 {
+		n = 48 // race-detector builds with up to 16 tasks per case: about a second per case
+	}
 	type key struct{ gmp, rep int }
 	var ref []outLine
 	ok := true
